@@ -127,6 +127,66 @@ func main() {
 		}
 		c.NonTrivial()
 	})
+	// travelling along a line: every line of 2..4 (thorough 5) lattice vertices x 10 target distances given as a
+	// fraction of the line's length
+	alN := ev.Pick(r, 4, 5)
+	fracs := []float64{-0.1, 0, 0.1, 0.33, 0.5, 0.7, 0.9, 0.999, 1, 1.2}
+	r.Explore("along-line", fmt.Sprintf("every line of 2..%d vertices of a 4x4 degree lattice (repeated vertices included) x %d target distances: PointAtDistanceAlongLine returns the point at that path length on the segment it falls on, with that segment's bearing; the ends beyond", alN, len(fracs)), mc.Opts{MaxDev: -1, Split: 2}, func(c *mc.Ctx) {
+		n := 2 + c.Choose(alN-1)
+		ls := make(orb.LineString, n)
+		for i := range ls {
+			k := c.Choose(16)
+			ls[i] = orb.Point{10 + float64(k%4)*1.5, 40 + float64(k/4)*1.25}
+		}
+		seg := make([]float64, n-1)
+		total := 0.0
+		for i := range seg {
+			seg[i] = geo.DistanceHaversine(ls[i], ls[i+1])
+			total += seg[i]
+		}
+		for _, f := range fracs {
+			d := f * total
+			if total == 0 {
+				d = f * 1000
+			}
+			q, b := geo.PointAtDistanceAlongLine(ls, d)
+			desc := fmt.Sprintf("PointAtDistanceAlongLine(%v, %v) = %v, %v (line length %v)", ls, d, q, b, total)
+			if d < 0 {
+				if q != ls[0] || b != 0 {
+					c.Failf("along-line", "a negative distance must give the first vertex and bearing 0 | %s", desc)
+				}
+				continue
+			}
+			acc, k := 0.0, -1
+			for i := range seg {
+				if d-acc < seg[i] {
+					k = i
+					break
+				}
+				acc += seg[i]
+			}
+			if k < 0 {
+				if q != ls[n-1] {
+					c.Failf("along-line", "a distance at or past the end must give the last vertex | %s", desc)
+				}
+				continue
+			}
+			if along := acc + geo.DistanceHaversine(ls[k], q); math.Abs(along-d) > 1e-3 {
+				c.Failf("along-line", "the point lies %v m along the line, want %v (segment %d) | %s", along, d, k, desc)
+				continue
+			}
+			if off := geo.DistanceHaversine(ls[k], q) + geo.DistanceHaversine(q, ls[k+1]) - seg[k]; math.Abs(off) > 1e-3 {
+				c.Failf("along-line", "the point is not on segment %d (detour %v m) | %s", k, off, desc)
+				continue
+			}
+			if want := geo.Bearing(ls[k], ls[k+1]); b != want {
+				c.Failf("along-line", "bearing %v, segment %d has bearing %v | %s", b, k, want, desc)
+			}
+		}
+		if total > 0 {
+			c.NonTrivial()
+		}
+	})
 	sizes := []float64{0.001, 0.5, 1, 3}
 	r.Explore("box-area", "boxes of 4 sizes anchored at every lattice point (clipped to the sphere): Area(bound) = R^2 x width x (sin top - sin bottom); ring / polygon / bound spellings agree", mc.Opts{MaxDev: -1, Split: 1}, func(c *mc.Ctx) {
 		p := pts[c.Choose(len(pts))]
